@@ -20,9 +20,9 @@ use std::time::Duration;
 pub static INFO: PropInfo = PropInfo {
     id: "C09",
     level: "exploration",
-    rule: "three kinds of evaluation. (A) simulated sessions with small channel budgets (8-64 KB) and long lossy histories, submissions kept 'within budget' (accepted by can_send_message AND slice-rounded bytes submitted-but-not-yet-obtained <= receive budget); the monitor reads, after every arrival / drain / tick, the accounted memory of every channel (send side: public API; receive side: hook) and asserts 0 <= m <= max, that unreliable send memory is back after every flush, that after a full drain an unreliable receive channel accounts at most the fragments that saw a slice less than 3 s before the receiver's last update, that no endpoint disconnects with ReliableChannelMaxMemoryReached, and at a quiescent point (everything obtained and acknowledged, >= 3 s idle, drained) that every channel offers its whole budget and accounts 0 received bytes. (B) heap trend: a lean client/server pair runs 24-48 identical lossy+duplicating cycles; the live heap (counting global allocator) is recorded at the drained quiescent point after each cycle and must not keep growing (growth in both the 2nd and the 3rd third above a constant slack). (C) exact fill: a client/server pair with one budget (1 byte .. 64 KB, multiples and non-multiples of the 1200-byte slice) for both reliable kinds and both roles; without consulting can_send_message the driver submits messages (0 bytes .. several slices, slice-rounded size = size) whose lengths add up to exactly the budget, judged by a shadow (sum of the lengths of the messages whose ids are still unacknowledged, hook); at every step can_send_message must accept what the shadow says fits, channel_available_memory must equal budget - shadow, no endpoint may disconnect with ReliableChannelMaxMemoryReached, and after the acknowledgements the whole budget must be back; repeated 3 times per run over clean or lossy links. Non-trivial = faults occurred AND at least one duplicate of an already consumed message arrived AND the quiescent point was reached; distinct = distinct event-log fingerprints.",
+    rule: "three kinds of evaluation. (A) simulated sessions with small channel budgets (8-64 KB) and long lossy histories, submissions kept 'within budget' (accepted by can_send_message AND bytes submitted-but-not-yet-obtained <= receive budget); the monitor reads, after every arrival / drain / tick, the accounted memory of every channel (send side: public API; receive side: hook) and asserts 0 <= m <= max, that unreliable send memory is back after every flush, that after a full drain an unreliable receive channel accounts at most the fragments that saw a slice less than 3 s before the receiver's last update, that no endpoint disconnects with ReliableChannelMaxMemoryReached, and at a quiescent point (everything obtained and acknowledged, >= 3 s idle, drained) that every channel offers its whole budget and accounts 0 received bytes. (B) heap trend: a lean client/server pair runs 24-48 identical lossy+duplicating cycles; the live heap (counting global allocator) is recorded at the drained quiescent point after each cycle and must not keep growing (growth in both the 2nd and the 3rd third above a constant slack). (C) exact fill: a client/server pair with one budget (1 byte .. 64 KB, multiples and non-multiples of the 1200-byte slice) for both reliable kinds and both roles; without consulting can_send_message the driver submits messages (0 bytes .. several slices; whole slices in half of the runs, any length in the other half) whose lengths add up to exactly the budget, judged by a shadow (sum of the lengths of the messages whose ids are still unacknowledged, hook); at every step can_send_message must accept what the shadow says fits, channel_available_memory must equal budget - shadow, no endpoint may disconnect with ReliableChannelMaxMemoryReached, and after the acknowledgements the whole budget must be back; repeated 3 times per run over clean or lossy links. Non-trivial = faults occurred AND at least one duplicate of an already consumed message arrived AND the quiescent point was reached; distinct = distinct event-log fingerprints.",
     assumptions: &[
-        "'within budget' window as defined in DESIGN C09",
+        "'within budget' window as defined in DESIGN C09, counted in plain bytes since fix F26 (DESIGN 8.3)",
         "heap trend compares successive quiescent points of a steady workload with a 32 KB slack (containers keep capacity)",
     ],
     gates: &[
@@ -684,6 +684,10 @@ fn fill(ctx: &Ctx, out: &mut Outcome, run_seed: u64, r: &mut Rng) {
     let kind = chans[ch as usize].kind.short();
     let tag = r.next_u64();
     let lossy = r.chance(1, 2);
+    let whole_slices = r.chance(1, 2);
+    if !whole_slices {
+        out.count("fill_runs_any_length");
+    }
     let mut lens: Vec<usize> = Vec::new(); // message id -> length (ids are assigned in submission order)
     let mut hist: Vec<String> = Vec::new();
     let mut fp = Fnv::new();
@@ -716,7 +720,9 @@ fn fill(ctx: &Ctx, out: &mut Outcome, run_seed: u64, r: &mut Rng) {
             // a piece whose slice-rounded size equals its size (receive side accounts whole slices)
             let exact = steps > 6 || r.chance(1, 3);
             let want = if exact { room } else { r.urange(0, room) };
-            let len = if want > 1200 { want / 1200 * 1200 } else { want };
+            // in half of the runs the pieces are whole slices (the receiver reserves whole slices for a partial
+            // message), in the other half any length: the budget is a number of BYTES on both sides
+            let len = if want > 1200 && whole_slices { want / 1200 * 1200 } else { want };
             let fits = if dir == UP { l.client.can_send_message(ch, len) } else { l.server.can_send_message(id, ch, len) };
             hist.push(format!("round {} tick {}: unacked bytes {} of {}, submit {} bytes (can_send_message={})", round, l.tick, used, budget, len, fits));
             if !fits {
